@@ -463,7 +463,12 @@ def _short(x):
 # generation of heap-building ops (shared by C03 / C04 / C17)
 
 
-def gen_build_ops(g, n):
+STATICS = [0, 1, 7, 'tag', None, 'x', True, -1, -2]  # hash(-1) == hash(-2) in CPython
+# True == 1 == 1.0 and False == 0 == 0.0 == -0.0 hash alike: types and signs must survive a round trip
+STATICS_TYPED = STATICS + [False, 1.0, 0.0, -0.0]
+
+
+def gen_build_ops(g, n, statics=STATICS):
   ops = [dict(op='new', t='Node')]
   for _ in range(n):
     r = g.random()
@@ -472,7 +477,7 @@ def gen_build_ops(g, n):
     if r < 0.12:
       ops.append(dict(op='new', t=g.choice(['Node', 'Node2'])))
     elif r < 0.22:
-      ops.append(dict(op='static', obj=a, name=name, value=g.choice([0, 1, 7, 'tag', None, 'x', True, -1, -2])))  # hash(-1) == hash(-2) in CPython
+      ops.append(dict(op='static', obj=a, name=name, value=g.choice(statics)))
     elif r < 0.30:
       ops.append(dict(op='array', obj=a, name=name, shape=g.choice([[2], [2, 2], []]), fill=g.randrange(-3, 9), jax=g.random() < 0.5))
     elif r < 0.55:
@@ -498,6 +503,19 @@ def gen_build_ops(g, n):
       # edit the metadata of an existing Variable in place
       ops.append(dict(op='setmeta', var=b, key=g.choice(['tag', 'note']), value=g.choice(['x', 'y', 'frozen', None])))
   return ops
+
+
+class _GetHook:
+  """A user get-hook (metadata `on_get_value`): what `.value` shows is not what is stored."""
+
+  def __call__(self, var, value):
+    return value * 8 + 1
+
+  def __repr__(self):
+    return 'GETHOOK'
+
+
+HOOKS = {'@GETHOOK': _GetHook()}
 
 
 def apply_build_op(h: Heap, op, res=None):
@@ -553,8 +571,9 @@ def apply_build_op(h: Heap, op, res=None):
           delattr(h.real[i], op['key'])
           del h.model[i].meta[op['key']]
       else:
-        setattr(h.real[i], op['key'], op['value'])
-        h.model[i].meta[op['key']] = op['value']
+        value = HOOKS.get(op['value'], op['value']) if isinstance(op['value'], str) else op['value']
+        setattr(h.real[i], op['key'], value)
+        h.model[i].meta[op['key']] = value
       if res is not None:
         res.probe('metadata_edited_in_place')
   else:
